@@ -305,6 +305,31 @@ type fmtPlace struct {
 	Kinds  []string `json:"kinds"`
 	Layout string   `json:"layout"`
 	Opt    fmtOpt   `json:"opt"`
+	Seps   []string `json:"seps"` // a RUN of comments in one gap: separators between consecutive comments (nl | blank)
+}
+
+// runText lays out a run of comments in one gap: the first one on the previous token's line (inline) or on its
+// own line, consecutive ones separated by a line break or a blank line, a line break after the last one.
+func runText(pl fmtPlace) string {
+	var sb strings.Builder
+	if pl.Layout == "inline" {
+		sb.WriteString(" ")
+	} else {
+		sb.WriteString("\n")
+	}
+	for i, k := range pl.Kinds {
+		text, _ := commentText(k, i+1)
+		sb.WriteString(text)
+		if i < len(pl.Seps) {
+			if pl.Seps[i] == "blank" {
+				sb.WriteString("\n\n")
+			} else {
+				sb.WriteString("\n")
+			}
+		}
+	}
+	sb.WriteString("\n")
+	return sb.String()
 }
 
 // observation judged by TLC (Format.tla Conforms / Reasons)
@@ -327,6 +352,8 @@ type fmtDetail struct {
 	Gaps     string   `json:"gaps"`
 	Kinds    string   `json:"kinds"`
 	Layout   string   `json:"layout"`
+	Seps     string   `json:"seps"`     // "" for separate gaps; "nl", "blank+nl", ... for a run of comments in one gap
+	Comments int      `json:"comments"` // number of comments placed
 	Opt      int      `json:"opt"`
 	Src      string   `json:"src"`
 	Out      string   `json:"out"`
@@ -453,9 +480,13 @@ func fmtMain(args []string) {
 					continue
 				}
 				src := marked
-				for gi := range pl.Gaps {
-					text, nl := commentText(pl.Kinds[gi], gi+1)
-					src = strings.Replace(src, fmt.Sprintf(gapMarker, gi), layoutText(pl.Layout, text, nl), 1)
+				if len(pl.Seps) > 0 {
+					src = strings.Replace(src, fmt.Sprintf(gapMarker, 0), runText(pl), 1)
+				} else {
+					for gi := range pl.Gaps {
+						text, nl := commentText(pl.Kinds[gi], gi+1)
+						src = strings.Replace(src, fmt.Sprintf(gapMarker, gi), layoutText(pl.Layout, text, nl), 1)
+					}
 				}
 				src = numberIdents(src)
 				if _, err := parseSrc(src); err != nil {
@@ -471,7 +502,7 @@ func fmtMain(args []string) {
 					mu.Unlock()
 					continue
 				}
-				if len(cin) != len(pl.Gaps) {
+				if len(cin) != len(pl.Kinds) {
 					// the inserted text ended up inside a string literal (or merged): not a comment placement
 					mu.Lock()
 					sum.NotAComment++
@@ -486,7 +517,7 @@ func fmtMain(args []string) {
 					gs[i] = strconv.Itoa(g)
 				}
 				det := fmtDetail{Form: node.Name, Parent: parent, Pos: strings.Join(between, " & "), Gaps: strings.Join(gs, "+"), Kinds: ks,
-					Layout: pl.Layout, Opt: pl.Opt.ID, Src: src, Forms: c.Forms}
+					Layout: pl.Layout, Seps: strings.Join(pl.Seps, "+"), Comments: len(pl.Kinds), Opt: pl.Opt.ID, Src: src, Forms: c.Forms}
 				obs := fmtObs{Cin: cin, Cout: [][2]string{}}
 				out, ferr := safeFormat([]byte(src), o)
 				if ferr != nil {
